@@ -20,6 +20,7 @@ import (
 	"errors"
 	"fmt"
 	"regexp/syntax"
+	"strings"
 	"sync"
 )
 
@@ -33,6 +34,34 @@ type typeDictionary struct {
 	identities identityDictionary
 	// pass counts the calls of resolveTypedefs, i.e. the Process runs.
 	pass int
+	// resolving is the stack of typedefs being resolved, used to describe a
+	// typedef cycle the same way wherever resolution entered it.
+	resolving []*Typedef
+}
+
+// cycleError describes the cycle of typedefs that resolution has run into at
+// t.  The description starts at the member of the cycle that comes first in
+// the source, so that it does not depend on where the cycle was entered.
+func (d *typeDictionary) cycleError(t *Typedef) error {
+	cycle := []*Typedef{t}
+	for i, r := range d.resolving {
+		if r == t {
+			cycle = d.resolving[i:]
+			break
+		}
+	}
+	first := 0
+	for i, td := range cycle {
+		if si, sf := Source(td), Source(cycle[first]); len(si) < len(sf) || (len(si) == len(sf) && si < sf) {
+			first = i
+		}
+	}
+	names := make([]string, 0, len(cycle)+1)
+	for i := range cycle {
+		names = append(names, cycle[(first+i)%len(cycle)].Name)
+	}
+	names = append(names, cycle[first].Name)
+	return fmt.Errorf("%s: typedef %s is defined in terms of itself (%s)", Source(cycle[first]), cycle[first].Name, strings.Join(names, " -> "))
 }
 
 func newTypeDictionary() *typeDictionary {
@@ -135,10 +164,14 @@ func (t *Typedef) resolve(d *typeDictionary) []error {
 	}
 
 	if t.resolving {
-		return []error{fmt.Errorf("%s: typedef %s is defined in terms of itself", Source(t), t.Name)}
+		return []error{d.cycleError(t)}
 	}
 	t.resolving = true
-	defer func() { t.resolving = false }()
+	d.resolving = append(d.resolving, t)
+	defer func() {
+		t.resolving = false
+		d.resolving = d.resolving[:len(d.resolving)-1]
+	}()
 
 	if errs := t.Type.resolve(d); len(errs) != 0 {
 		return errs
